@@ -1,6 +1,8 @@
 """C11 — year-less timestamps receive the right year.
 
-gen (Consts) -> prove S4V.Props.YearSpec -> drv -> build s4 -> end-to-end oracle:
+gen (Consts, Filter, Year) -> prove S4V.Props.YearSpec -> drv -> build s4 + harness ->
+in-process correspondence (component `year`: the REAL SyslogProcessor stages 0-2 over generated
+year-less files vs the model, driver op `time yearx`) -> end-to-end oracle:
 generated RFC 3164 logs (`Mon DD HH:MM:SS host prog: text`) spanning 0..4 year
 boundaries x mtimes inside the last message's year x zones x windows x containers
 (plain: os.utime; .gz: header MTIME with a misleading file mtime; .tar: member mtime) x
@@ -16,17 +18,33 @@ import time
 from vlib import core, e2e
 
 MODS = ['S4V.Props.YearSpec']
-LEVEL_NOTE = ("Proved (S4V.Props.YearSpec over the hand model of process_missing_year, threshold regenerated from "
-              "BACKWARDS_TIME_JUMP_MEANS_NEW_YEAR): the last message gets year(mtime) (C11_last_year); for files without a 29 February whose true year "
-              "never decreases, whose time never runs back more than 25 h and whose consecutive gaps are < 365 d - 25 h, with mtime in the last message's "
-              "year, every message gets its true year (C11_years) and with --dt-after exactly the messages down to the first one before the bound are "
-              "re-dated (C11_window); unconditionally the stored dates never step back more than 25 h (C11_monotone); the statement without the "
-              "29-February exclusion is false (C11_years_full_false, witness replayed on the binary). Calendar: civil_roundtrip / strict monotonicity "
-              "for all Int (S4V.Lemmas.Time). Tied to the code end to end only: the binary's -u prefixes are compared with the generator's true dates "
-              "and with the model's instants for every generated file; mtime source per container, file order, window and merge are observed there.")
+LEVEL_NOTE = ("Proved (S4V.Props.YearSpec). The model of process_missing_year is a function of the loop's control skeleton REGENERATED from the source on every run "
+              "(gen/gen_year.py -> S4V.Gen.Year; every statement of the prologue, the loop body and the jump action must be a known shape, else the translator fails): "
+              "the order of the jump test and of the exits (DECISIONS = jump, start-of-file exit, --dt-after test), the comparison operators of the jump test "
+              "(dt_cur > dt_prev, diff > threshold), the year step (-1), remove_sysline / same offset retried / previous message kept on a jump, the "
+              "Result_Filter_DateTime1 variants on which the --dt-after match breaks (OccursBefore only), year from the mtime in tz_offset, clear_syslines first, and "
+              "the only caller (stage 2, after block-zero analysis, only when the pattern has no year); dt_after_or_before is the generated S4V.Gen.Filter function and the "
+              "threshold is regenerated from BACKWARDS_TIME_JUMP_MEANS_NEW_YEAR. Every theorem goes through walk_eq_nf, which unfolds those constants: moving the "
+              "start-of-file exit in front of the jump test, adding a break on dt == --dt-after, >= for >, another year step or break variant regenerates different "
+              "constants and the proofs fail; what those two defects would do is kept as counter-models (start_exit_before_jump_misdates_first: message 1 one year late "
+              "and the stored dates step back more than the threshold; break_on_equal_after_loses: of two messages at instant A only the later is re-dated under -a A). "
+              "For plain files (every message a real month/day other than 29 February): the last message gets year(mtime) (C11_last_year); if the true year never "
+              "decreases, time never runs back more than 25 h, consecutive gaps are < 365 d - 25 h and the mtime lies in the last message's year, every message gets "
+              "its true year (C11_years) and with --dt-after exactly the messages down to the first one before the bound are re-dated (C11_window); for any order "
+              "the stored dates never step back more than 25 h (C11_monotone). 29 February (Issue #245): C11_years_full_false, C11_feb29_first_undated, and two "
+              "behaviours found by the in-process correspondence and now modelled: a sysline re-read with a common fill year also takes FOLLOWING 29 February lines "
+              "that had been stored with a leap year (C11_last_feb29_lost: a trailing 29 February loses its sysline; C11_last_year_full_false), and when only text / "
+              "29 February lines precede the search offset find_sysline_year turns forward and the message found again is re-dated with the stepped-back year "
+              "(C11_refind_redates). Calendar: civil_roundtrip / strict monotonicity for all Int (S4V.Lemmas.Time). Tied to the code (a) in process: harness component "
+              "`year` writes year-less files (1-41 messages, 0-4 year wraps at every position incl. between message 1-2 and the last two, runs of equal instants, "
+              "29 February lines, 0-2 leading lines without a timestamp, continuation lines, multi-block block sizes, 6 zones, mtime on the edges of the local year), "
+              "sets the mtime, runs the real SyslogProcessor stages 0-2 with --dt-after on / next to message instants, and compares what is stored at every "
+              "message's offset (instant, or nothing) with the model; (b) end to end: the binary's -u prefixes are compared with the generator's true dates and with "
+              "the model's instants for every generated file; mtime source per container, file order, window and merge are observed there.")
 ASSUME = ["regex + chrono attribute month/day/time of an RFC 3164 line as written (C04)",
-          "the model's treatment of a line that does not parse with the fill year (swallowed as a continuation line) was read from find_sysline_year and is "
-          "validated only by the 29-February witnesses"]
+          "find_sysline_year itself (backward search to a line that parses with the fill year, forward search when none does, forward extension over lines that do not "
+          "parse, range replacement in syslines_by_range) is modelled by hand (findParse / refind / blank) and validated by the in-process correspondence, not translated",
+          "C11_monotone and C11_last_year are proved for plain files only; with 29 February lines they are checked by the correspondence, not proved"]
 
 MONTHS = ['Jan', 'Feb', 'Mar', 'Apr', 'May', 'Jun', 'Jul', 'Aug', 'Sep', 'Oct', 'Nov', 'Dec']
 OFFSETS = [0, 0, 19800, -28800, 50400, -43200, 3600]
@@ -332,11 +350,11 @@ def oracle(ctx):
 
 
 def check(ctx):
-    return core.standard_check(ctx, ['Consts'], MODS, [], oracle, LEVEL_NOTE, ASSUME, need_harness=False)
+    return core.standard_check(ctx, ['Consts', 'Filter', 'Year'], MODS, [('year', 2500, 12000)], oracle, LEVEL_NOTE, ASSUME, need_harness=True)
 
 
 def replay(ctx, data):
-    core.step_build_impl(ctx, need_s4=True, need_harness=False)
+    core.step_build_impl(ctx, need_s4=True, need_harness=True)
     core.step_drv(ctx)
     f = data.get('failure') or {}
     print('recorded failure:', {k: (v if not isinstance(v, str) or len(v) < 300 else v[:300] + '…') for k, v in f.items()})
